@@ -249,12 +249,23 @@ pub fn read(r: R, w: &Written, proj: Option<Vec<usize>>) -> Result<Decoded, Read
                 let schema = fr.schema();
                 let md = fr.custom_metadata().clone();
                 let nb = fr.num_batches();
+                let mut fr = fr;
                 let mut batches = vec![];
-                for b in fr {
+                for b in fr.by_ref() {
                     batches.push(b.map_err(es)?);
                 }
                 if batches.len() != nb {
                     return Err(format!("num_batches() = {nb} but iterator yielded {}", batches.len()));
+                }
+                // random access: every block again, last to first, must decode to the same batch
+                for k in (0..nb).rev() {
+                    fr.set_index(k).map_err(es)?;
+                    match fr.next() {
+                        Some(Ok(b)) if b == batches[k] => {}
+                        Some(Ok(_)) => return Err(format!("set_index({k}) then next(): batch differs from the sequential read")),
+                        Some(Err(e)) => return Err(format!("set_index({k}) then next(): {e}")),
+                        None => return Err(format!("set_index({k}) then next(): None")),
+                    }
                 }
                 Ok(Decoded { schema, batches, custom_md: Some(md) })
             }
@@ -369,7 +380,7 @@ pub struct Mismatch {
     pub detail: String,
 }
 
-fn schema_diff(exp: &Schema, got: &Schema) -> String {
+pub fn schema_diff(exp: &Schema, got: &Schema) -> String {
     if exp.fields().len() != got.fields().len() {
         return format!("field count {} vs {}", exp.fields().len(), got.fields().len());
     }
